@@ -483,6 +483,30 @@ func runDKG(t *testing.T, rc *RunCtx) {
 				rc.Violate("C12", "cannot-sign-after-restart", fmt.Sprintf("%s cannot sign with %s after a restart (state %v)", p.Name, path, st), s.Step)
 			}
 			rc.Stats.Inc("clean_restarts", 1)
+			// Sometimes every participant restarts; a threshold of them must still produce a valid signature.
+			if ch.Pick(3, 0) == 2 && len(rc.Viol) == 0 {
+				for _, q := range parts {
+					d := q.Inst.Cfg.Dir
+					q.Inst.Close()
+					c.startNode(q, d)
+				}
+				data, domain := h32("all restarted", path), MkDomain([4]byte{7, 0, 0, 0}, 6)
+				var idsUsed []uint64
+				var sigs [][]byte
+				for _, q := range parts[:th] {
+					st, sg := q.partialSign("client1", path, data, domain)
+					if st != pb.ResponseState_SUCCEEDED {
+						rc.Violate("C12", "cannot-sign-after-restart", fmt.Sprintf("%s cannot sign after all participants restarted (state %v)", q.Name, st), s.Step)
+						return
+					}
+					idsUsed, sigs = append(idsUsed, q.ID), append(sigs, sg)
+				}
+				rs, err := recoverSig(idsUsed, sigs)
+				if err != nil || !VerifySig(out.PubKey, rs, data, domain) {
+					rc.Violate("C12", "threshold-subset-fails", "after restarting every participant the first t of them no longer produce a valid composite signature", s.Step)
+				}
+				rc.Stats.Inc("all_participants_restarted", 1)
+			}
 		})
 	}
 }
